@@ -27,7 +27,13 @@ def _patterns_C06(rep, spec, verbose=False, only=None):
 
 def _patterns_C08(rep, spec, verbose=False, only=None):
     from . import patterns
-    return patterns.run_c08(rep, spec, verbose=verbose, only=only)
+    import re
+    obls = patterns.run_c08(rep, spec, verbose=verbose, only=only)
+    # integer division and remainder (every integer kind, variable and constant operands, compound assignment): the
+    # divide-by-zero panic is part of the pattern obligations shared with C06
+    obls += patterns.run_patterns(rep, spec, tier=rep.tier, verbose=verbose, only=only, which=('grid', 'compound'),
+                                  select=lambda c: re.search(r'_(div|rem)_', c.name) is not None)
+    return obls
 
 def _sites_C17(rep, spec, verbose=False, only=None):
     from . import sites, props
